@@ -117,13 +117,17 @@ Pairing == AtPairing => PairingOK(Partner)
 PairingAlt == AtPairing => PairingOK(PartnerAlt)
 PairingFaultExposed == AtPairing => ~PairingOK(PartnerSelf)
 
-(* seeded faults of the estimator *)
+(* seeded faults of the estimator (state "sfault", one per variant), as in Observables.tla *)
 SwapExposedAt(v) == {<<w, A>> \in UNION {{<<w, A>> : A \in Regions(Witness[w].n)} : w \in 1..Len(Witness)} :
                         ~SwapIsPurityFor(v, Witness[w], A)}
-SwapFaultsExposed == st = "faults" => \A v \in SwapFaults : SwapExposedAt(v) # {}
-SwapAlternativeNotExposed == st = "faults" => SwapExposedAt("rho-transposed") = {} /\ SwapExposedAt("code") = {}
+SwapFaultsExposed == st = "sfault" =>
+    LET E == SwapExposedAt(C.v) IN
+    /\ PrintT(ToJson([fault |-> C.v, exposed |-> Cardinality(E)]))
+    /\ IF C.v \in SwapFaults THEN E # {} ELSE E = {}
 
-SInit == Init \/ (st = "pairing" /\ idx = 0 /\ C = <<>>)
+SInit == \/ Init
+         \/ st = "pairing" /\ idx = 0 /\ C = <<>>
+         \/ st = "sfault" /\ idx = 0 /\ \E v \in SwapFaults \cup {"code", "rho-transposed"} : C = [v |-> v]
 
 -----------------------------------------------------------------------------
 (* export for the harness: per n the regions with their swap tables and partial-trace structure *)
@@ -137,6 +141,5 @@ SwapRecord(n) == [n |-> n, regions |-> [r \in 1..Dim(n) |->
      swap |-> [k1 \in 1..Dim(n) |-> [k2 \in 1..Dim(n) |-> SwapIdx(n, k1 - 1, k2 - 1, A)]]]]]
 PairingRecord == [pairing |-> [m \in 1..MMax |-> [i \in 1..m |->
                     [partner |-> Partner(m, i - 1), neighbours |-> IdxSeq({(i % m), (i - 2 + m) % m}, 5)]]]]
-SwapFaultsRecord == [faults |-> [v \in SwapFaults |-> Cardinality(SwapExposedAt(v))]]
 
 =============================================================================
